@@ -227,15 +227,14 @@ impl LeafUpdater {
             },
         };
 
-        if from == to {
-            // nothing to keep
-            return;
+        if from != to {
+            let values_size = base.node.values_size(from, to);
+            self.ops.push(LeafOp::KeepChunk(from, to, values_size));
+            self.gauge.ingest(to - from, values_size);
         }
 
-        let values_size = base.node.values_size(from, to);
-        self.ops.push(LeafOp::KeepChunk(from, to, values_size));
-        self.gauge.ingest(to - from, values_size);
-
+        // The cell at `to` is being replaced or deleted, whether or not anything before it is kept:
+        // its overflow pages must be released.
         if found {
             let (val, overflow) = base.cell(to);
             if overflow {
